@@ -152,13 +152,22 @@ impl PoolWorld {
         }
     }
     /// the factory's owner moves the switches (the factory owns the pools it creates)
-    pub fn set_flags(&mut self, who: &str, f: (bool, bool, bool)) -> i64 {
+    pub fn set_flags(&mut self, who: &str, f: (bool, bool, bool)) -> i64 { self.set_flags_with(who, f, false) }
+    /// `companions`: the same message also names the other updatable fields with values that change nothing (the current fees and
+    /// collector; for the three-asset pool a ramp to the current amplification): a switch update need not travel alone
+    pub fn set_flags_with(&mut self, who: &str, f: (bool, bool, bool), companions: bool) -> i64 {
         let r = if self.kind.is_pair() {
+            let c: pair::ConfigResponse = self.app.wrap().query_wasm_smart(&self.pool, &pair::QueryMsg::Config {}).unwrap();
             self.app.execute_contract(Addr::unchecked(who), self.factory.clone(), &factory::ExecuteMsg::UpdatePairConfig { pair_addr: self.pool.to_string(), owner: None,
-                fee_collector_addr: None, pool_fees: None, feature_toggle: Some(pair::FeatureToggle { withdrawals_enabled: f.1, deposits_enabled: f.0, swaps_enabled: f.2 }) }, &[])
+                fee_collector_addr: if companions { Some(c.fee_collector_addr.to_string()) } else { None }, pool_fees: if companions { Some(c.pool_fees.clone()) } else { None },
+                feature_toggle: Some(pair::FeatureToggle { withdrawals_enabled: f.1, deposits_enabled: f.0, swaps_enabled: f.2 }) }, &[])
         } else {
+            let c: trio::ConfigResponse = self.app.wrap().query_wasm_smart(&self.pool, &trio::QueryMsg::Config {}).unwrap();
+            let h = self.app.block_info().height;
             self.app.execute_contract(Addr::unchecked(who), self.factory.clone(), &factory::ExecuteMsg::UpdateTrioConfig { trio_addr: self.pool.to_string(), owner: None,
-                fee_collector_addr: None, pool_fees: None, feature_toggle: Some(trio::FeatureToggle { withdrawals_enabled: f.1, deposits_enabled: f.0, swaps_enabled: f.2 }), amp_factor: None }, &[])
+                fee_collector_addr: if companions { Some(c.fee_collector_addr.to_string()) } else { None }, pool_fees: if companions { Some(c.pool_fees.clone()) } else { None },
+                feature_toggle: Some(trio::FeatureToggle { withdrawals_enabled: f.1, deposits_enabled: f.0, swaps_enabled: f.2 }),
+                amp_factor: if companions { Some(trio::RampAmp { future_a: c.future_amp, future_block: h + 20_000 }) } else { None } }, &[])
         };
         match r { Ok(_) => 0, Err(e) => classify(&e) }
     }
